@@ -27,6 +27,12 @@ func main() {
 		os.Exit(runDriveText(os.Args[2:]))
 	case "text-sweep":
 		os.Exit(runTextSweep(os.Args[2:]))
+	case "codec":
+		os.Exit(runCodec(os.Args[2:]))
+	case "hostile":
+		os.Exit(runHostile(os.Args[2:]))
+	case "hostile-child":
+		os.Exit(runHostileChild(os.Args[2:]))
 	case "serve":
 		os.Exit(runServe(os.Args[2:]))
 	case "cli-worker":
